@@ -364,7 +364,11 @@ def random_and_validate(rep, pid, wd, n, size, profile, st, jobs=4, shards=8):
     return total - nskip - len(rejects), nskip
 
 
-def run_property(pid, tier):
+def run_property(pid, tier, stage=None):
+    """`stage` (optional, used by C10): a callable (tier, reporter) -> dict run next to the tasks of this
+    check; its violations go to the same reporter, its numbers {"name", "states", "transitions",
+    "validated", "evaluations", "distinct_nontrivial", "coverage", "samples", "assumptions"} into the same
+    evidence file."""
     t0 = time.time()
     wd = vlib.workdir(pid)
     rep = vlib.Reporter(pid)
@@ -387,6 +391,8 @@ def run_property(pid, tier):
         # command search on the real kernel (PATH search takes the first executable *regular file*): stage of G04
         from checks import g04
         tasks.append(lambda: res.update(cmdsearch=g04.run_stage(tier, _LockedReporter(rep), budget="c02")))
+    if stage is not None:
+        tasks.append(lambda: res.update(stage=stage(tier, _LockedReporter(rep))))
     gens = list(plan["gen"])
     if (real_name, real_k) not in gens:
         gens.append((real_name, real_k))
@@ -394,19 +400,20 @@ def run_property(pid, tier):
         tasks.append(lambda name=name, k=k: gen_and_replay(
             rep, pid, wd, name, k, st, plan["variants"], workers=4, jobs=4,
             real_every=real_every if (name, k) == (real_name, real_k) else 0))
-    with ThreadPoolExecutor(max_workers=3) as ex:
+    with ThreadPoolExecutor(max_workers=3 if stage is None else 4) as ex:
         futs = [ex.submit(t) for t in tasks]
         for f in futs:
             f.result()
     validated, skipped = res["p3"]
     rc = rep.finish()
+    sg = res.get("stage") or {}
     vlib.write_evidence(pid, tier, {
-        "states": st.states,
-        "transitions": st.transitions,
-        "traces_validated_against_impl": st.pairs_ok + validated,
-        "samples": st.samples,
-        "evaluations": st.runs,
-        "distinct_nontrivial": st.pairs_ok,
+        "states": st.states + sg.get("states", 0),
+        "transitions": st.transitions + sg.get("transitions", 0),
+        "traces_validated_against_impl": st.pairs_ok + validated + sg.get("validated", 0),
+        "samples": st.samples + sg.get("samples", []),
+        "evaluations": st.runs + sg.get("evaluations", 0),
+        "distinct_nontrivial": st.pairs_ok + sg.get("distinct_nontrivial", 0),
         "rule": "distinct (program, run options) pairs of the bounded enumeration for which the specification "
                 "prescribes an outcome (not unspecified, not diverging), each executed on the real shell in "
                 "`variants` surface renderings; random programs counted separately",
@@ -422,6 +429,7 @@ def run_property(pid, tier):
         "tlc_action_coverage": st.coverage,
         "known_finding_hits": {fid: n for fid, (f, n) in rep.known_hits.items()},
         **({"cmdsearch_stage": res["cmdsearch"]} if "cmdsearch" in res else {}),
+        **({sg["name"]: sg["coverage"]} if sg else {}),
     }, time.time() - t0, violations=len(rep.violations), assumptions=[
         "the probe built-ins mk/probe/tick registered by the harness behave as Semantics.tla describes its leaves",
         "events of concurrently running pipeline members are compared after the canonical linearisation "
@@ -432,7 +440,7 @@ def run_property(pid, tier):
         "TLC 1.8.0 and the JSON community module are trusted",
     ] + (["command-search stage: the assumptions of G04 (B3): executables are #!/bin/sh scripts in a scratch "
           "directory; what ran is read from their output; the wording of `command -V` / `type` is classified by "
-          "keywords"] if "cmdsearch" in res else []))
+          "keywords"] if "cmdsearch" in res else []) + sg.get("assumptions", []))
     return rc
 
 
